@@ -322,7 +322,10 @@ func init() {
 		Explanation: "Decides that columns are mapped by field identity (name and expression) with aligned positional builders, and that a field change is propagated: one identity across Equals/outIdxsFor/info/coalescing and writer/reader agreement of the file header; exactly-one append per input element in every positional builder; applyFields → fieldUpdates → new memstore before the next insert; the scan-continuation rule (a row without requested columns must not end the scan); raw pass-through gated on the file's own header. Added clauses: the new fields are adopted before the ALTER-triggered flush builds the next memstore; applyWhere installs the new WHERE on every path.",
 		NotDecided:  []string{"end-to-end values across alteration histories", "WHERE changes apply only to points processed afterwards (applyWhere swaps the predicate under a mutex; not modelled)"},
 		Assumptions: []string{"Field.String() is injective on (name, expression rendering)"},
-		Rules:       []func(*Ctx){func(c *Ctx) { ruleC15a(c, "C15.a") }, func(c *Ctx) { ruleC15b(c, "C15.b") }, func(c *Ctx) { ruleC15c(c, "C15.c") }, func(c *Ctx) { ruleC03a(c, "C15.d") }, func(c *Ctx) { ruleC03b(c, "C15.e") }, func(c *Ctx) { ruleC15f(c, "C15.f") }},
+		Rules: []func(*Ctx){func(c *Ctx) { ruleC15a(c, "C15.a") }, func(c *Ctx) { ruleC15b(c, "C15.b") }, func(c *Ctx) { ruleC15c(c, "C15.c") }, func(c *Ctx) { ruleC03a(c, "C15.d") }, func(c *Ctx) { ruleC03b(c, "C15.e") }, func(c *Ctx) { ruleC15f(c, "C15.f") }, func(c *Ctx) {
+			c.describe("C15.g", "= C02.f: on restart the resume position is the data file's offsets advanced by the offset file — the only durable record of points that were processed but rejected; without it points rejected before an ALTER of the WHERE are re-processed under the new WHERE")
+			ruleC02f(c, "C15.g")
+		}, func(c *Ctx) { ruleC15h(c, "C15.h") }},
 	})
 }
 
@@ -361,4 +364,80 @@ func ruleC15f(c *Ctx, rule string) {
 		}
 	}
 	c.check(rule, "applyWhere stores the new WHERE", st.Pos(), ok, "t.Where = where on every path (or skipped only for the identical value)", "the new WHERE is not always installed"+why+": a corrected predicate that renders like the old one (goexpr prints string constants without quotes: d IN ('x, y') vs d IN ('x', 'y')) is ignored and points keep being filtered by the old WHERE")
+}
+
+// ruleC15h: every file row gets its own column slice.
+func ruleC15h(c *Ctx, rule string) {
+	c.describe(rule, "flow (ownership): in fileStore.iterate the column slice handed to the row callback is allocated inside the loop over file rows — columns of fields that are not in the file's header (added by an ALTER while the file keeps its old header) are only ever merged into; a slice reused across rows leaks the previous key's values of such a field into the next key's row")
+	it := c.need(rule, "(*z.fileStore).iterate")
+	if it == nil {
+		return
+	}
+	n := 0
+	for _, p := range callbackParams(it) {
+		for _, f := range withAnon(it) {
+			for _, call := range calls(f) {
+				if !isCallOfParam(call, p) && !(f != it && isCallOfFreeParam(call, p)) {
+					continue
+				}
+				a := call.Common().Args
+				if len(a) != 3 || isNilConst(a[1]) {
+					continue
+				}
+				l := innermostLoop(f, call.Block())
+				if l == nil {
+					continue // the final memstore walk: rows come from the tree
+				}
+				v := resolveVal(c.P, a[1], it)
+				ms, isMS := v.(*ssa.MakeSlice)
+				if !isMS {
+					if sl, isSl := v.(*ssa.Slice); isSl {
+						if al, isAl := sl.X.(*ssa.Alloc); isAl {
+							n++
+							c.check(rule, "fileStore.iterate: file row columns are allocated per row", call.Pos(), loopsHave(f, call.Block(), al.Block()), "allocated inside the row loop", "the column slice passed to the row callback is allocated outside the loop over file rows: values of a field the file does not have yet carry over from one key to the next")
+						}
+					}
+					continue
+				}
+				n++
+				c.check(rule, "fileStore.iterate: file row columns are allocated per row", call.Pos(), loopsHave(f, call.Block(), ms.Block()), "make([]encoding.Sequence, …) inside the row loop", "the column slice passed to the row callback is allocated outside the loop over file rows: values of a field the file does not have yet (added by ALTER) carry over from one key to the next, and the next flush writes them to disk")
+			}
+		}
+	}
+	c.floor(rule, "file row callback calls in a loop", n, 1)
+}
+
+// loopsHave: the innermost loop around 'at' also contains block b.
+func loopsHave(fn *ssa.Function, at, b *ssa.BasicBlock) bool {
+	l := innermostLoop(fn, at)
+	if l == nil {
+		return false
+	}
+	// the outermost loop that still is a row loop: use every loop containing 'at'
+	for _, ll := range loopsContaining(fn, at) {
+		if ll.body[b] {
+			return true
+		}
+	}
+	return false
+}
+
+func isCallOfFreeParam(call ssa.CallInstruction, p *ssa.Parameter) bool {
+	cc := call.Common()
+	if cc.IsInvoke() || cc.StaticCallee() != nil {
+		return false
+	}
+	if fv, ok := strip(cc.Value).(*ssa.FreeVar); ok {
+		return cellRoot(fv) == ssa.Value(p)
+	}
+	if u, ok := strip(cc.Value).(*ssa.UnOp); ok {
+		if fv, ok := u.X.(*ssa.FreeVar); ok {
+			for _, st := range cellStores(p.Parent(), cellRoot(fv)) {
+				if st.Val == ssa.Value(p) {
+					return true
+				}
+			}
+		}
+	}
+	return false
 }
